@@ -1,6 +1,7 @@
 package main
 
 import (
+	"fmt"
 	"strings"
 	"verifharness/docs"
 	"verifharness/gen"
@@ -166,5 +167,40 @@ func c16(r *mon.Run) {
 			}
 			c16Check(r, t, "numbers-from-text-at-the-edges-of-the-formats", i, strings.ReplaceAll(tm, "%s", sv), map[string]interface{}{"a": sv, "x": []interface{}{"1", sv, "-" + strings.TrimPrefix(sv, "-")}})
 		}}
-	r.Exec(fm, emp, rnd, sized, edge)
+	// a compiled expression fed its own earlier result (a caller may keep a result and query it): every result is JSON data - finite,
+	// acyclic, serialisable
+	ownExprs := []string{"merge(`{\"d\":1}`, @)", "merge({k: `1`}, @)", "merge(`{}`, {self: @})", "merge({a: a}, {r: @})", "[@, @]", "{k: @}", "to_array(@)", "merge(@, {self: @})", "not_null(@)", "values(merge(`{\"x\":1}`, {s: @}))", "merge(`{\"d\":{}}`, {d: @})", "[`[]`, @][]", "{a: a, all: @}", "merge({self: @}, `{\"z\":0}`)", "map(&merge(`{\"m\":1}`, @), [@, @])", "a[*].merge(`{\"lit\":true}`, @)", "merge(`{\"lit\":1}`, a[0], {o: @})"}
+	ownDocs := []string{`{"a":[{"b":1},{"b":2}],"b":"x"}`, `{"a":1}`, `[1,2]`, `{}`}
+	ownw := mon.Workload{Name: "a-compiled-expression-fed-its-own-earlier-result", N: len(ownExprs) * len(ownDocs), Batch: 20,
+		Describe: func(i int) string {
+			return ownExprs[i/len(ownDocs)] + " on " + ownDocs[i%len(ownDocs)] + " and then on its own results"
+		},
+		Do: func(i int, t *mon.Tally) {
+			expr := ownExprs[i/len(ownDocs)]
+			jp, co := apiCompile(expr)
+			if co.Panicked || co.Err != nil {
+				r.Inconclusive("C16 workload expression does not compile: " + expr)
+				return
+			}
+			var doc interface{} = docs.J(ownDocs[i%len(ownDocs)])
+			for round := 0; round < 4; round++ {
+				t.Eval()
+				o := apiJP(jp, doc)
+				if o.Panicked {
+					r.Violate(&mon.Violation{Workload: "a-compiled-expression-fed-its-own-earlier-result", Index: i, API: "Compile+Search", Expr: expr, DocDesc: fmt.Sprintf("round %d, starting from %s", round+1, ownDocs[i%len(ownDocs)]), Expected: "no panic", Observed: o.String(), Detail: o.Stack, Class: "panic"})
+					return
+				}
+				if o.Err != nil {
+					return
+				}
+				if why := mon.JSONClosed(o.V); why != "" {
+					r.Violate(&mon.Violation{Workload: "a-compiled-expression-fed-its-own-earlier-result", Index: i, API: "Compile+Search", Expr: expr, DocDesc: fmt.Sprintf("round %d (the document is the result of round %d), starting from %s", round+1, round, ownDocs[i%len(ownDocs)]),
+						Expected: "JSON data that survives Marshal/Unmarshal", Observed: clipStr(why, 300), Detail: why, Class: "a-compiled-expression-fed-its-own-earlier-result: " + firstWords(why)})
+					return
+				}
+				doc = o.V
+			}
+			t.Nontrivial("own:" + expr)
+		}}
+	r.Exec(fm, emp, rnd, sized, edge, ownw)
 }
